@@ -26,7 +26,8 @@ RULE = ('seeded analytic truth motions stratified over hemisphere (N/S x E/W inc
         '0..300 m/s (slow and fast bands), 3-axis attitude sinusoids with a 90-degree phase pair (coning), rates to ~3 rad/s, forces to '
         '~2 g; rate and increment sensors; h in {1,2,5,10,20,50} ms; horizons 5..120 s (quick) and up to a Schuler period (thorough); '
         'half of the Imu tables with their labelled columns in another order plus an unrelated column, half with stamps on an offset origin; '
-        'non-trivial = anything but (lat 55, heading-only rotation, gentle speed); distinct = generator parameters')
+        'non-trivial = anything but (lat 55, heading-only rotation, gentle speed); distinct = generator parameters'
+        ' Round 4: class of motions in which a physical quantity vanishes (level frame not rotating in inertial space - westward at the Earth-surface speed, |lat| 52..78; rest; steady straight flight) at h = 1 / 2 / 5 ms.')
 ASSUMPTIONS = ['truth kinematics written by hand from textbook formulas, checked at start-up against 6th-order finite differences '
                '(disagreement => inconclusive)', 'a limit cannot be observed: restated as the bounded halving ladder above (K = 6; the true '
                'ratio of a method of order p >= 1 is <= 2)', 'longitudes compared modulo 360 (the integrator does not wrap; not part of C01)']
